@@ -17,7 +17,7 @@ pub fn spec() -> CheckSpec {
     CheckSpec {
         id: "C02",
         level: "exploration",
-        rule: "proptest: block-tree plans dense in transactions (in-block spend chains, the same tx committed on two branches, cells created on one branch and spent on another, conflicting spends) and forks, delivered to a real node under generated schedules (mostly synchronous so that many reorgs happen; asynchronous bursts with a concurrent snapshot-sampling reader thread); at every quiescent point the oracle = full scans of the live-cell / cell-data / data-hash / tx-location / number<->hash / included-uncle columns compared both ways with the reference model's replay of the main chain, plus tip, current epoch, per-block epoch records, block ext (fees, sizes, TD, uncle count, verified), chain-root MMR; every sampled snapshot gets the same comparison for its own tip; at the end a second node fed only the final main chain in order must have byte-identical columns, block exts (incl. cycles) and chain root; some histories end with a truncate. A case = (plan, schedule); non-trivial = some reorg detaches a block containing a non-cellbase transaction; distinct by hash of (plan, schedule).",
+        rule: "proptest: block-tree plans dense in transactions (in-block spend chains, the same tx committed on two branches, cells created on one branch and spent on another, conflicting spends) and forks, delivered to a real node under generated schedules (mostly synchronous so that many reorgs happen; asynchronous bursts with a concurrent snapshot-sampling reader thread); at every quiescent point the oracle = full scans of the live-cell / cell-data / data-hash / tx-location / number<->hash / included-uncle columns compared both ways with the reference model's replay of the main chain, plus tip, current epoch, per-block epoch records, block ext (fees, sizes, TD, uncle count, verified), chain-root MMR; every sampled snapshot gets the same comparison for its own tip; at the end a second node fed only the final main chain in order must have byte-identical columns, block exts (incl. cycles) and chain root; some histories end with a truncate, half of them with a clean stop and restart on the same directory whose first snapshot gets the same comparison. A second family grows few long rival branches under 2-5 block epochs so that reorganisations cross epoch boundaries. A case = (plan, schedule); non-trivial = some reorg detaches a block containing a non-cellbase transaction, or has its fork point in an earlier epoch than a new tip that is not an epoch head; distinct by hash of (plan, schedule).",
         assumptions: &[
             "snapshots are sampled by a reader thread at whatever instants the OS schedules it, not enumerated",
             "the reference model's replay (model.rs) is the definition of 'what replaying the main chain produces'; it is validated by the unchanged node accepting its blocks",
@@ -47,6 +47,47 @@ fn case_strategy(max_blocks: usize) -> impl Strategy<Value = Case> {
                 // bias to in-order synchronous delivery: reorgs rather than orphan games
                 if s.mode >= 2 {
                     s.mode = 1;
+                }
+                s.dups.truncate(1);
+                s
+            }),
+            1..=2,
+        ),
+    )
+        .prop_map(|(variant, plan, schedules)| Case {
+            variant,
+            plan,
+            schedules,
+        })
+}
+
+/// second family: few long competing branches under short epochs (2, 3.., 5 blocks), so that
+/// reorganisations cross epoch boundaries with the new tip in the middle of an epoch
+fn epoch_case_strategy(max_blocks: usize) -> impl Strategy<Value = Case> {
+    let p = PlanParams {
+        min_blocks: 10,
+        max_blocks,
+        fork_pct: 34,
+        tx_rate: 40,
+        invalid_pct: 2,
+        uncle_pct: 25,
+        dao_pct: 0,
+    };
+    (
+        prop_oneof![Just(2u8), Just(3u8), Just(4u8)],
+        tree_plan_strategy(p).prop_map(|mut plan| {
+            // forks mostly continue an existing rival leaf instead of opening a new one
+            for (i, st) in plan.steps.iter_mut().enumerate() {
+                if st.parent_mode == 2 && i % 3 != 0 {
+                    st.parent_mode = 1;
+                }
+            }
+            plan
+        }),
+        proptest::collection::vec(
+            schedule_strategy(max_blocks + 2).prop_map(|mut s| {
+                if s.mode >= 2 {
+                    s.mode = 0;
                 }
                 s.dups.truncate(1);
                 s
@@ -113,6 +154,7 @@ fn run_one(env: &Env, built: &Built, s: &Schedule, case: &Case, st: &mut Stats) 
             .unwrap()
     };
     let mut detached_tx_block = false;
+    let mut crossed_epoch = false;
     let mut last_tip: Option<H> = None;
     let mut extra = |node: &Node, where_: &str, st: &mut Stats| -> Verdict {
         {
@@ -134,12 +176,21 @@ fn run_one(env: &Env, built: &Built, s: &Schedule, case: &Case, st: &mut Stats) 
                     a = tree.get(&a.parent);
                 }
                 st.label("reorg");
+                // `a` is now the fork point
+                let nt = tree.get(&tip);
+                let tip_epoch = nt.block.epoch();
+                if a.block.epoch().number() != tip_epoch.number() && tip_epoch.index() != 0 {
+                    st.label("reorg:fork-point-in-earlier-epoch,new-tip-not-epoch-head");
+                    crossed_epoch = true;
+                }
             }
         }
         last_tip = Some(tip);
         check_snapshot(&snap, tree, where_, st)
     };
-    let res = run_schedule_with(env, built, s, st, &mut extra, NodeCfg::default());
+    let dir = scratch("c02-");
+    let node_cfg = NodeCfg { dir: Some(dir.path().to_path_buf()), ..Default::default() };
+    let res = run_schedule_with(env, built, s, st, &mut extra, node_cfg);
     stop.store(true, Ordering::Relaxed);
     let _ = reader.join();
     let (out, node) = res?;
@@ -185,8 +236,42 @@ fn run_one(env: &Env, built: &Built, s: &Schedule, case: &Case, st: &mut Stats) 
         check_snapshot(&snap, tree, &format!("after truncate to #{target_n}"), st)?;
     }
     node_panic_violation()?;
+    // the persisted state is what the next start loads: a restarted node's first snapshot must
+    // satisfy the same oracle (clean stop; crash points are C08's subject)
+    if s.jitter.get(2).copied().unwrap_or(0) % 2 == 0 {
+        let tip_before = node.shared.snapshot().tip_hash();
+        node.stop();
+        let mut last = String::new();
+        let mut restarted = None;
+        for attempt in 0..40u64 {
+            let cfg = NodeCfg { dir: Some(dir.path().to_path_buf()), ..Default::default() };
+            match std::panic::catch_unwind(std::panic::AssertUnwindSafe(|| Node::start(env, cfg))) {
+                Ok(Ok(n)) => {
+                    restarted = Some(n);
+                    break;
+                }
+                Ok(Err(e)) => last = e,
+                Err(_) => last = "panic while starting the node".into(),
+            }
+            // the previous instance's threads may still be releasing the database lock
+            std::thread::sleep(std::time::Duration::from_millis(50 + 25 * attempt));
+        }
+        let Some(node) = restarted else { vfail!("harness:node-start", "restart: {last}") };
+        st.label("restart");
+        let snap = node.shared.snapshot();
+        if snap.tip_hash() != tip_before {
+            vfail!("restart:tip-changed", "tip before the stop {:#x}, after the restart {:#x}", tip_before, snap.tip_hash());
+        }
+        check_snapshot(&snap, tree, "after restart", st)?;
+        node_panic_violation()?;
+        node.stop();
+    } else {
+        node.stop();
+    }
     if detached_tx_block {
         st.label("schedule:reorg-detached-block-with-txs");
+    }
+    if detached_tx_block || crossed_epoch {
         st.nontrivial(&(
             serde_json::to_string(&case.plan).unwrap(),
             serde_json::to_string(s).unwrap(),
@@ -201,7 +286,6 @@ fn run_one(env: &Env, built: &Built, s: &Schedule, case: &Case, st: &mut Stats) 
             });
         }
     }
-    node.stop();
     Ok(())
 }
 
@@ -210,6 +294,9 @@ fn run(ctx: &Ctx) {
     let cases = ctx.cases(500, 7500);
     let max_blocks = ctx.tier.pick(40, 100);
     ctx.run_prop("history-x-schedule", cases, case_strategy(max_blocks), prop);
+    let cases = ctx.cases(300, 4500);
+    let max_blocks = ctx.tier.pick(36, 80);
+    ctx.run_prop("reorgs-across-epochs", cases, epoch_case_strategy(max_blocks), prop);
 }
 
 fn replay(ctx: &Ctx, _sub: &str, v: &Value) -> Verdict {
